@@ -370,10 +370,12 @@ class PyValPlugin:
             if not (isinstance(obj, VPy) and isinstance(kw, VPy)):
                 return None
             eng.assume_note('H-NEW: a user __init__ may raise anything')
-            bad = s.fork()
-            bad.notes.append(('init', kw))
-            out.append((bad, Raise(VExc('UserException', (VStr(fresh(
-                'usermsg', so.S)),), getattr(e, 'lineno', 0)))))
+            for a in ((), (VStr(fresh('usermsg', so.S)),)):
+                # with or without arguments: assert / raise ValueError
+                bad = s.fork()
+                bad.notes.append(('init', kw))
+                out.append((bad, Raise(VExc('UserException', a,
+                                            getattr(e, 'lineno', 0)))))
             s.notes.append(('init', kw))
             out.append((s, NONE))
         return out
@@ -490,10 +492,11 @@ class PyValPlugin:
                 and not args:
             eng.assume_note('H-ATTRS: _yatiml_attributes() is a function of '
                             'the object; it may raise anything')
-            bad = st.fork()
-            return [(bad, Raise(VExc('UserException', (VStr(fresh(
-                'usermsg', so.S)),), getattr(node, 'lineno', 0)))),
-                (st, VPy(py_yattrs(recv.t)))]
+            ln = getattr(node, 'lineno', 0)
+            return [(st.fork(), Raise(VExc('UserException', (), ln))),
+                    (st.fork(), Raise(VExc('UserException', (VStr(fresh(
+                        'usermsg', so.S)),), ln))),
+                    (st, VPy(py_yattrs(recv.t)))]
         if name == 'represent_mapping' and len(args) == 2:
             return self.represent_mapping(eng, args[0], args[1], st, node)
         if name == '__new__' and eng.as_ty(recv) is not None \
